@@ -1,4 +1,4 @@
-import Goyang.Model.Pipeline
+import Goyang.Model.Load
 /-
 The state machine of ONE `yang.Modules` value (property C18): `load` = `Modules.Parse`,
 `process` = `Modules.Process`, `read` = `ToEntry(ms.Modules[key]).Find(path)`.
@@ -25,11 +25,12 @@ What Go keeps in a `Modules` value between calls, and how it appears here:
                                                         |   the correspondence runner corr-c18 is what
                                                         |   checks that assumption on the real code
 
-`load f buildOk`: `buildOk = false` says that the generic parser or the AST builder rejected the
-text (`Parse(data, name)` or `buildASTWithTypeDict` returned an error); for the time being the
-harness decides that from the real Go error.  A text that was built is added statement by
-statement (`ms.add`); if any statement is rejected the maps are restored (`restoreNames`), so the
-load is atomic.
+`load src`: the source is either a raw text (`Src.text`: generic parser model, AST builder model
+and registry all run here, `Goyang.Model.loadText`) or the statement trees of a text together
+with a flag (`Src.stmts f buildOk`; `buildOk = false` says that the generic parser or the AST
+builder rejected the text, decided outside the model).  A text that was built is added statement
+by statement (`ms.add`); if any statement is rejected the maps are restored (`restoreNames`), so
+the load is atomic.
 -/
 namespace Goyang.Model
 
@@ -39,6 +40,16 @@ inductive Reject where
   | add (e : Registry.AddErr)          -- `ms.add`: duplicate
   | notModule (kw : String)            -- `ms.add`: "not a module or submodule" (a top-level statement
                                        -- with another keyword that the builder knows, e.g. a container)
+  | text (res : LoadResult)            -- a raw text: what the Lean front end + registry said (not `accepted`)
+
+/-- What is offered to `Modules.Parse`. -/
+inductive Src where
+  /-- a text given as the statement trees the generic parser made of it; `buildOk`: the AST builder
+  (and the parser) accepted it - decided outside the model (by the caller, from the real Go error) -/
+  | stmts (f : SrcFile) (buildOk : Bool)
+  /-- a raw text (file name, bytes): parser, AST builder and registry all run in the model
+  (`Goyang.Model.loadText`, Load.lean) -/
+  | text (name text : List UInt8)
 
 namespace Session
 
@@ -81,12 +92,29 @@ theorem loadFile_of_ok (reg r : Registry) (f : SrcFile) (h : tryLoad reg f = .ok
   unfold loadFile
   rw [foldlM_addTop_ok f.stmts reg r h]
 
+/-- `Modules.Parse` of either kind of source: the new registry, or why nothing was loaded. -/
+def tryLoadSrc (reg : Registry) : Src → Except Reject Registry
+  | .stmts f buildOk => if !buildOk then .error .build else tryLoad reg f
+  | .text name text =>
+    match loadText reg name text with
+    | (r, .accepted) => .ok r
+    | (_, res) => .error (.text res)
+
+/-- `Modules.Parse` as a function on registries: a rejected source leaves the registry as it was. -/
+def loadSrc (reg : Registry) (src : Src) : Registry :=
+  match tryLoadSrc reg src with
+  | .ok r => r
+  | .error _ => reg
+
+/-- A batch of sources into a fresh `NewModules()`. -/
+def loadSrcs (srcs : List Src) : Registry := srcs.foldl loadSrc {}
+
 end Session
 
 /-- One call on a `Modules` value. -/
 inductive Op where
-  /-- `ms.Parse(text, name)`; `buildOk`: generic parser and AST builder accepted the text. -/
-  | load (f : SrcFile) (buildOk : Bool)
+  /-- `ms.Parse(text, name)` -/
+  | load (src : Src)
   /-- `ms.Process()` -/
   | process
   /-- `ToEntry(ms.Modules[key]).Find(path)` -/
@@ -124,9 +152,8 @@ namespace Session
 /-- One call.  `plug reg` are the type and identity layers for the registry `reg` (the driver uses
 `plugFull`): like everything else in `process`, a function of the registry alone. -/
 def step (plug : Registry → Plug) (s : Session) : Op → Session × Out
-  | .load f buildOk =>
-    if !buildOk then (s, .rejected .build) else
-    match tryLoad s.reg f with
+  | .load src =>
+    match tryLoadSrc s.reg src with
     | .ok r => ({ s with reg := r }, .accepted)
     | .error w => (s, .rejected w)
   | .process =>
